@@ -4,6 +4,7 @@ import PEval.Lemmas.ClearSum
 import PEval.Lemmas.ClearDT
 import PEval.Lemmas.ClearDTHist
 import PEval.Gen.ClearDT
+import PEval.Lemmas.ClearPipeline
 /-!
 # C05 — CLEAR tracking scores follow their definitions for every history
 
@@ -699,5 +700,259 @@ theorem init_code_tables_history (cfg : Cfg) (hist : List (List Res)) :
 example : (initAtoms (histVal [[], [], [⟨1, 0, none, 0, true, 1⟩]]) 1 2 [] 0) = ([(some 1, some 2)], 1) := by decide
 
 end DecisionTablesHistory
+
+/-! ## histories PRODUCED BY THE PIPELINE: `PrevOneToOne` is discharged
+
+`switch_once_per_tp` needs `PrevOneToOne` (without it the count depends on the scan order, see the example below).
+A frame that is the translation of an answer of the matcher model (`Matching.getObjectResults`, C01/C02) over
+object lists with unique track ids (`MatcherFrame`), and every sub-frame of one (the manager's per-label
+buckets), pairs estimated and ground-truth tracks one-to-one; so the hypothesis holds for every history the
+pipeline can produce, under every configuration. -/
+section PipelineHistories
+
+/-- every frame of the history is (contained in) a frame produced by the matcher over unique track ids -/
+def PipelineHist (hist : List (List Res)) : Prop := ∀ f ∈ hist, ∃ f', MatcherFrame f' ∧ f ⊆ f'
+
+theorem prevOneToOne_pipeline (cfg : Cfg) (hist : List (List Res)) (h : PipelineHist hist) :
+    PrevOneToOne cfg hist :=
+  prevOneToOne_of_track cfg hist fun f hf => by
+    obtain ⟨f', hm, hs⟩ := h f hf
+    exact hm.trackOneToOne.subset hs
+
+/-- `switch_once_per_tp` with its hypothesis discharged: for pipeline-produced histories a switch is counted
+exactly once for each TP whose pairing differs from the pairing a (own-test) TP had in the previous frame,
+whatever the order of the previous frame -/
+theorem switch_once_per_tp_pipeline (cfg : Cfg) (hist : List (List Res)) (h : PipelineHist hist) :
+    (clear cfg hist).sw = (events hist).countP (fun e => switchedTp cfg e.1 e.2) :=
+  switch_once_per_tp cfg hist (prevOneToOne_pipeline cfg hist h)
+
+/-- the per-label histories `get_scene_result` builds out of matcher-produced frames are pipeline histories -/
+theorem sceneInputs_pipeline (targets : List (Nat × Rat)) (frames : List (List Res)) (gts : List (List Nat))
+    (h : ∀ f ∈ frames, MatcherFrame f) : ∀ li ∈ sceneInputs targets frames gts, PipelineHist li.hist := by
+  intro li hli f hf
+  obtain ⟨lt, _, _, _, hh⟩ := mem_sceneInputs hli
+  rw [hh] at hf
+  rcases List.mem_cons.1 hf with rfl | hf
+  · cases frames with
+    | nil =>
+      exact ⟨[], ⟨⟨.default, .centerDistance, none, none, false⟩, ⟨[], [], fun _ _ => 0⟩, [],
+        ⟨fun _ => (0, 0), fun _ => ⟨0, 0, false⟩, fun _ _ => 0, fun _ _ => false, fun _ _ => 0⟩,
+        by simp [Matching.getObjectResults], ⟨fun i hi => by simp at hi, fun j hj => by simp at hj⟩, rfl⟩,
+        fun _ hx => hx⟩
+    | cons f0 fs => exact ⟨f0, h f0 (by simp), fun _ hx => by cases hx⟩
+  · obtain ⟨fr, hfr, rfl⟩ := List.mem_map.1 hf
+    exact ⟨fr, h fr hfr, bucket_subset _ _ _⟩
+
+/-- scene level: every per-label CLEAR instance of `TrackingMetricsScore` over matcher-produced frames counts
+its switches in the order-free way -/
+theorem switch_once_per_tp_scene (mx : Bool) (targets : List (Nat × Rat)) (frames : List (List Res))
+    (gts : List (List Nat)) (h : ∀ f ∈ frames, MatcherFrame f) :
+    ∀ li ∈ sceneInputs targets frames gts,
+      (clear ⟨mx, [(li.label, li.thr)]⟩ li.hist).sw =
+        (events li.hist).countP (fun e => switchedTp ⟨mx, [(li.label, li.thr)]⟩ e.1 e.2) :=
+  fun li hli => switch_once_per_tp_pipeline _ _ (sceneInputs_pipeline targets frames gts h li hli)
+
+/-- a matcher-produced frame: the contested scene of C01 (three estimates, two ground truths, answer
+`[(0, some 0), (1, some 1), (2, none)]`) with track ids `i+1` / `j+1` -/
+def mCfg : Matching.Cfg :=
+  { policy := .default, mode := .centerDistance, targets := some ["car", "pedestrian"],
+    thresholds := some [3, 2], fpValidation := false }
+def mScene : Matching.Scene :=
+  { ests := [⟨"car", "base_link"⟩, ⟨"unknown", "map"⟩, ⟨"car", "base_link"⟩],
+    gts := [⟨"car", "base_link"⟩, ⟨"pedestrian", "map"⟩],
+    val := fun i j => if i == 1 then 1 / 2 else if j == 0 then 1 / 4 else 5 }
+def mAttrs : TrackAttrs :=
+  ⟨fun i => (i + 1, 0), fun j => ⟨j + 1, 0, false⟩, fun i j => mScene.val i j, fun _ _ => true, fun _ _ => 1⟩
+def mFrame : List Res := toClearFrame mAttrs [(0, some 0), (1, some 1), (2, none)]
+
+theorem mFrame_matcher : MatcherFrame mFrame :=
+  ⟨mCfg, mScene, [(0, some 0), (1, some 1), (2, none)], mAttrs, by decide +kernel,
+    ⟨fun i _ i' _ e => by simpa [mAttrs] using congrArg Prod.fst e,
+     fun j _ j' _ e => by simpa [mAttrs] using e⟩, rfl⟩
+
+/-- non-vacuity of `switch_once_per_tp_pipeline` / `_scene`: a three-frame pipeline history with results -/
+example : PipelineHist [[], mFrame, mFrame] ∧ (clear cfgEx [[], mFrame, mFrame]).tp = 4 := by
+  refine ⟨?_, by decide +kernel⟩
+  intro f hf
+  simp only [List.mem_cons, List.not_mem_nil, or_false] at hf
+  rcases hf with rfl | rfl | rfl
+  · exact ⟨mFrame, mFrame_matcher, fun _ hx => by cases hx⟩
+  · exact ⟨mFrame, mFrame_matcher, fun _ hx => hx⟩
+  · exact ⟨mFrame, mFrame_matcher, fun _ hx => hx⟩
+
+/-- A DEFECTIVE matcher that hands one ground truth to two estimates breaks the statement: the previous frame
+`[1→1, 2→1]` is not one-to-one, the operational count is 0 in this order and 1 in the reversed order, the
+order-free count is 1.  So `switch_once_per_tp_pipeline` is about the matcher, not true of every frame. -/
+example :
+    ¬ TrackOneToOne [rEx 1 1 (1/2), rEx 2 1 (1/2)] ∧
+    (clear cfgEx [[], [rEx 1 1 (1/2), rEx 2 1 (1/2)], [rEx 1 1 (1/4)]]).sw = 0 ∧
+    (clear cfgEx [[], [rEx 2 1 (1/2), rEx 1 1 (1/2)], [rEx 1 1 (1/4)]]).sw = 1 ∧
+    (events [[], [rEx 1 1 (1/2), rEx 2 1 (1/2)], [rEx 1 1 (1/4)]]).countP
+      (fun e => switchedTp cfgEx e.1 e.2) = 1 := by
+  refine ⟨fun h => ?_, by decide +kernel, by decide +kernel, by decide +kernel⟩
+  have := h (rEx 1 1 (1/2)) (by simp) (rEx 2 1 (1/2)) (by simp) (by decide +kernel)
+  revert this
+  decide +kernel
+
+/-- the result list of the defective matcher uses ground truth 0 twice: it violates what
+`matcher_results_one_to_one` proves of the real matcher model -/
+example : ¬ (Matching.usedGts [(0, some 0), (1, some 0)]).Nodup := by decide
+
+end PipelineHistories
+
+/-! ## the carry-over convention and "a TP in the previous frame"
+
+`switchedTp` reads "a TP in the previous frame" as "a previous result that passes ITS OWN test under the current
+result's threshold" – that is what `_calculate_tp_fp` tests (`scan_reads_own_test_only`).  It is NOT "a previous
+result that was BOOKED TP in its frame": a result booked TP by carry-over (same pairing as a TP before it) whose own
+score fails is invisible to the next frame.  Consequence (DESIGN B1 declares the carry-over for counts and scores
+only): a new id on a target that is booked TP only by carry-over costs NO switch. -/
+section CarryOver
+
+/-- the scan of the previous frame reads it through the filter "passes its own test under the current threshold" -/
+theorem scan_reads_own_test_only (cfg : Cfg) (t : Rat) (c : Res) (prev : List Res) :
+    scan cfg t c prev = scan cfg t c (prev.filter (isTp cfg t)) := scan_filter cfg t c prev
+
+/-- THE CONVENTION: if no result of the previous frame passes its own test under the current result's threshold,
+the current result is booked by its own test alone and no switch is booked with it – even when previous results were
+booked TP in their own frame by carry-over (`outcome cfg pp p = .carried q`) and conflict with the current one -/
+theorem carried_over_target_new_id_no_switch (cfg : Cfg) (prev : List Res) (c : Res) (t : Rat)
+    (ht : labelThreshold cfg (keyLabel c) = some t) (h : ∀ p ∈ prev, isTp cfg t p = false) :
+    outcome cfg prev c = (if isTp cfg t c then .tp false else .fp) ∧ countsSwitch cfg prev c = false ∧
+    switchedTp cfg prev c = false := by
+  obtain ⟨h1, h2⟩ := outcome_of_no_own_tp cfg prev c t ht h
+  refine ⟨h1, h2, ?_⟩
+  unfold switchedTp
+  rw [ht]
+  simp only [Bool.and_eq_false_imp]
+  intro _
+  rw [List.any_eq_false]
+  intro p hp
+  simp [h p hp]
+
+/-- the two readings of "a TP in the previous frame" agree when, on the previous frame, "booked TP" and "passes its
+own test under the current threshold" coincide -/
+theorem switch_readings_agree (cfg : Cfg) (pp prev : List Res) (c : Res)
+    (h : ∀ t, labelThreshold cfg (keyLabel c) = some t → ∀ p ∈ prev, countsTp cfg pp p = isTp cfg t p) :
+    switchedTp cfg prev c = switchedTpBooked cfg pp prev c := switchedTp_eq_booked cfg pp prev c h
+
+/-- the example: threshold 1 (distance).  Frame 1: track 1 on target 1 at distance 1/2 (TP).  Frame 2: same pairing
+at distance 5 – fails its own test, booked TP by carry-over.  Frame 3: NEW id 2 on target 1 at distance 1/4: TP by
+its own test, its pairing conflicts with the booked TP of frame 2, yet NO switch: totals TP 3, FP 0, switches 0;
+the "booked TP" reading would count 1. -/
+theorem carry_over_new_id_example :
+    let f1 := [rEx 1 1 (1/2)]; let f2 := [rEx 1 1 5]; let f3 := [rEx 2 1 (1/4)]
+    outcome cfgEx f1 (rEx 1 1 5) = .carried (rEx 1 1 (1/2)) ∧ isTp cfgEx 1 (rEx 1 1 5) = false ∧
+    conflict (rEx 2 1 (1/4)) (rEx 1 1 5) = true ∧
+    outcome cfgEx f2 (rEx 2 1 (1/4)) = .tp false ∧
+    switchedTp cfgEx f2 (rEx 2 1 (1/4)) = false ∧ switchedTpBooked cfgEx f1 f2 (rEx 2 1 (1/4)) = true ∧
+    clear cfgEx [[], f1, f2, f3] = ⟨3, 0, 0, 1/2 + 1/2 + 1/4⟩ := by decide +kernel
+
+/-- non-vacuity of `carried_over_target_new_id_no_switch` (the instance above) -/
+example : labelThreshold cfgEx (keyLabel (rEx 2 1 (1/4))) = some 1 ∧ ∀ p ∈ [rEx 1 1 5], isTp cfgEx 1 p = false := by
+  decide +kernel
+
+/-- a DEFECTIVE variant of the scan that reads "booked TP" instead (does not skip failing previous results) books
+the switch on the example: the convention theorem distinguishes the two -/
+def scan_noSkip (c : Res) : List Res → Scan
+  | [] => .nothing
+  | p :: ps => if isIdSwitched c p then .switched else if isSameMatch c p then .same p else scan_noSkip c ps
+
+example : scan_noSkip (rEx 2 1 (1/4)) [rEx 1 1 5] = .switched ∧ scan cfgEx 1 (rEx 2 1 (1/4)) [rEx 1 1 5] = .nothing := by
+  decide +kernel
+
+end CarryOver
+
+/-! ## the manager's per-label buckets: known finding C05-N1, exactly
+
+Through the manager a result is filed by `divide_objects` under its ESTIMATE's label (if that is a target label),
+while the CLEAR instance of that label (singleton target list) looks the threshold up under the GROUND TRUTH's label:
+a result whose ground truth has another label is in the bucket (it counts in `predict_num`) and adds nothing. -/
+section Buckets
+
+/-- where `divide_objects` files a result -/
+theorem bucket_files_by_estimate_label (labels : List Nat) (l : Nat) (rs : List Res) (r : Res) :
+    r ∈ bucket labels l rs ↔ r ∈ rs ∧
+      ((r.estLabel ∈ labels ∧ r.estLabel = l) ∨ (r.estLabel ∉ labels ∧ ∃ g, r.gt = some g ∧ g.label = l)) :=
+  mem_bucket
+
+/-- a result with a target estimate label whose ground truth has ANOTHER label is counted by no per-label CLEAR
+instance: it is filed only in the bucket of its estimate's label, and there it adds neither TP nor FP nor switch
+nor score -/
+theorem cross_label_result_counted_nowhere (mx : Bool) (labels : List Nat) (r : Res) (g : Gt)
+    (he : r.estLabel ∈ labels) (hg : r.gt = some g) (hne : g.label ≠ r.estLabel) (l : Nat) (thr : Rat) :
+    (∀ rs, r ∈ bucket labels l rs → l = r.estLabel) ∧
+    (l = r.estLabel → ∀ prev, resStep ⟨mx, [(l, thr)]⟩ prev r = Acc.zero) := by
+  constructor
+  · intro rs hr
+    rcases (mem_bucket.1 hr).2 with ⟨_, h⟩ | ⟨h, _⟩
+    · exact h.symm
+    · exact absurd he h
+  · intro hl prev
+    apply resStep_crossLabel
+    simp only [crossLabel, keyLabel, hg, Bool.not_eq_true', beq_eq_false_iff_ne, ne_eq]
+    rw [hl]; exact hne
+
+theorem unitWeights_of_frames {frames : List (List Res)} (hu : ∀ f ∈ frames, ∀ r ∈ f, r.w = 1) (labels : List Nat)
+    (l : Nat) : UnitWeights ([] :: frames.map (bucket labels l)) := by
+  intro f hf r hr
+  rcases List.mem_cons.1 hf with rfl | hf
+  · cases hr
+  · obtain ⟨fr, hfr, rfl⟩ := List.mem_map.1 hf
+    exact hu fr hfr r (bucket_subset _ _ _ hr)
+
+/-- C05-N1 at scene level, exactly: for every target label, `predict_num` − (TP + FP) is the number of results in
+that label's buckets whose key label (ground truth's label) differs from the bucket label -/
+theorem scene_cross_label_exact (mx : Bool) (targets : List (Nat × Rat)) (frames : List (List Res))
+    (gts : List (List Nat)) (hu : ∀ f ∈ frames, ∀ r ∈ f, r.w = 1) :
+    ∀ li ∈ sceneInputs targets frames gts,
+      ((predictNum li.hist : Nat) : Rat) =
+        (clear ⟨mx, [(li.label, li.thr)]⟩ li.hist).tp + ((clear ⟨mx, [(li.label, li.thr)]⟩ li.hist).fp : Rat) +
+        (((frames.map (bucket (targets.map (·.1)) li.label)).flatten.countP (crossLabel li.label) : Nat) : Rat) := by
+  intro li hli
+  obtain ⟨lt, _, hl, _, hh⟩ := mem_sceneInputs hli
+  have hu' : UnitWeights li.hist := by rw [hh]; exact unitWeights_of_frames hu _ _
+  rw [tp_fp_count _ _ hu', single_label_accounting mx li.label li.thr li.hist, hh, hl]
+  simp only [List.drop_succ_cons, List.drop_zero]
+  push_cast
+  rfl
+
+/-- the same for the per-frame scores (`evaluate_frame`: history `[previous bucket, current bucket]`) -/
+theorem frame_cross_label_exact (mx : Bool) (targets : List (Nat × Rat)) (prev cur : List Res) (gt : List Nat)
+    (hp : ∀ r ∈ prev, r.w = 1) (hc : ∀ r ∈ cur, r.w = 1) :
+    ∀ li ∈ frameInputs targets prev cur gt,
+      ((predictNum li.hist : Nat) : Rat) =
+        (clear ⟨mx, [(li.label, li.thr)]⟩ li.hist).tp + ((clear ⟨mx, [(li.label, li.thr)]⟩ li.hist).fp : Rat) +
+        (((bucket (targets.map (·.1)) li.label cur).countP (crossLabel li.label) : Nat) : Rat) := by
+  intro li hli
+  obtain ⟨lt, _, hl, _, hh⟩ := mem_frameInputs hli
+  have hu' : UnitWeights li.hist := by
+    rw [hh]
+    intro f hf r hr
+    simp only [List.mem_cons, List.not_mem_nil, or_false] at hf
+    rcases hf with rfl | rfl
+    · exact hp r (bucket_subset _ _ _ hr)
+    · exact hc r (bucket_subset _ _ _ hr)
+  rw [tp_fp_count _ _ hu', single_label_accounting mx li.label li.thr li.hist, hh, hl]
+  simp only [List.drop_succ_cons, List.drop_zero, List.flatten_cons, List.flatten_nil, List.append_nil]
+  push_cast
+  rfl
+
+/-- the instance of the finding: targets car (0) and bus (1); an estimate labelled car matched to a BUS ground truth.
+It is filed under car, not under bus, and the car instance ignores it: predict_num 1, TP + FP = 0. -/
+def xRes : Res := ⟨7, 0, some ⟨9, 1, false⟩, 1/2, false, 1⟩
+
+example : bucket [0, 1] 0 [xRes] = [xRes] ∧ bucket [0, 1] 1 [xRes] = [] ∧ crossLabel 0 xRes = true ∧
+    (sceneInputs [(0, 1), (1, 1)] [[xRes]] [[0, 1]]).map (fun li =>
+      (predictNum li.hist, (clear ⟨false, [(li.label, li.thr)]⟩ li.hist).tp,
+        (clear ⟨false, [(li.label, li.thr)]⟩ li.hist).fp)) = [(1, 0, 0), (0, 0, 0)] := by decide +kernel
+
+/-- a DEFECTIVE-free alternative for comparison: filing by the KEY label (ground truth's label) would make the
+cross-label count 0 for every bucket – the deviation term of `scene_cross_label_exact` is specific to filing by the
+estimate's label -/
+example : ([xRes].filter (fun r => keyLabel r == 1)).countP (crossLabel 1) = 0 ∧
+    ([xRes].filter (fun r => keyLabel r == 0)) = [] := by decide +kernel
+
+end Buckets
 
 end PEval.C05
